@@ -63,10 +63,12 @@ pub fn king_sq(g: &Game, white: bool) -> u8 {
     o::sq(p.col(), p.row())
 }
 
-pub fn moves(g: &mut Game, checked: bool) -> ArrayVec<Move, 256> {
+/// Generated move list. The buffer's capacity is inferred from the signature of `get_moves`,
+/// so the harness does not pin the engine's choice of capacity.
+pub fn moves(g: &mut Game, checked: bool) -> Vec<Move> {
     let mut v = ArrayVec::new();
     g.get_moves(&mut v, checked);
-    v
+    v.to_vec()
 }
 
 pub fn texts(ms: &[Move]) -> Vec<String> {
